@@ -2555,6 +2555,10 @@ class x86_mn(x86_mn_base):
                             # prefix-less form under 16-bit operand size)
                             return None
                     c = ord(bin.readbs())
+                    if m.modifs[cr] or m.modifs[dr]:
+                        # mov to/from CRn/DRn: ModRM.mod is ignored, r/m
+                        # is always a general register
+                        c |= 0xC0
                     re, modr = x86mndb.get_afs(bin, c, self.admode)
                     mafs = dict(x86mndb.get_afs_re(re+reg_cat))
                     if m.modifs[w8]:
